@@ -14,6 +14,8 @@
 //	ck:<c>  ckl:<c>:<n|->        DeleteChild / DeleteChildLimit (- = nil limit)
 //	cks:<c>:<p>                   GetKeysWithPrefixFromChild
 //
+// A history may start with the token "H" (heap case, see c08HeapSeq): its final token carries
+// "/T=<contents>;<contents>..." = the contents of every entry of the trie's childTries map.
 // observed: one token per operation, then the final token (only when every transaction was
 // closed and nothing panicked):
 //
@@ -272,6 +274,30 @@ func c08Exhaustive(emit func(string)) {
 	rec(nil, 4, true)
 }
 
+// "H" cases: only SetChildStorage / ClearChildStorage / DeleteChild / GetChildStorage outside any
+// transaction (= PutIntoChild / ClearFromChild / DeleteChild / GetFromChild of the trie), few keys
+// and values so that child tries with equal contents come and go; the final token also lists the
+// contents of the trie's childTries map (model: coq/C08/ModelHeap.v)
+func c08HeapSeq(r *vu.RNG, nops int) string {
+	keys := []string{"22", "1122", "11"}
+	ops := []string{"H"}
+	for i := 0; i < nops; i++ {
+		c := c08Children[r.Intn(3)]
+		k := keys[r.Intn(3)]
+		switch r.Intn(10) {
+		case 0, 1, 2, 3, 4:
+			ops = append(ops, "cs:"+c+":"+k+":"+[]string{"a1", "a1", "a2"}[r.Intn(3)])
+		case 5, 6:
+			ops = append(ops, "cd:"+c+":"+k)
+		case 7:
+			ops = append(ops, "ck:"+c)
+		default:
+			ops = append(ops, "cg:"+c+":"+k)
+		}
+	}
+	return strings.Join(ops, " ")
+}
+
 func c08Gen(r *vu.RNG, n int, emit func(string)) {
 	// restart from a mixed value: with the first verifutil.NewRNG the streams of seeds s and s+1
 	// were the same sequence shifted by one draw (repaired since; the restart is kept, it is harmless)
@@ -282,6 +308,10 @@ func c08Gen(r *vu.RNG, n int, emit func(string)) {
 	}
 	for i := 0; i < n; i++ {
 		nops := 6 + r.Intn(25)
+		if r.Chance(1, 12) {
+			emit(c08HeapSeq(r, 4+r.Intn(14)))
+			continue
+		}
 		switch r.Intn(12) {
 		case 0: // main storage only
 			emit(c08Seq(r, nops, c08Mode{childWeight: 0, directMax: 5}))
@@ -511,7 +541,8 @@ func c08Run(in string) string {
 		}
 		return "err:badop"
 	}
-	for _, o := range strings.Split(in, " ") {
+	heap := strings.HasPrefix(in, "H ")
+	for _, o := range strings.Split(strings.TrimPrefix(in, "H "), " ") {
 		if o == "" {
 			continue
 		}
@@ -521,9 +552,24 @@ func c08Run(in string) string {
 		}
 	}
 	if depth == 0 {
-		out = append(out, c08Final(ts))
+		fin := c08Final(ts)
+		if heap {
+			fin += "/T=" + c08ChildTries(ts)
+		}
+		out = append(out, fin)
 	}
 	return strings.Join(out, " ")
+}
+
+// the contents of every entry of the in-memory trie's childTries map (keyed by root hash; also
+// entries no child storage key refers to any more), sorted
+func c08ChildTries(ts *TrieState) string {
+	var l []string
+	for _, c := range ts.Trie().GetChildTries() {
+		l = append(l, c08KV(c.Entries()))
+	}
+	sort.Strings(l)
+	return strings.Join(l, ";")
 }
 
 func TestVerifC08(t *testing.T) { vu.Run(t, "C08", 2000, c08Gen, c08Run) }
